@@ -455,6 +455,72 @@ func c01Spaces(c *fw.Ctx) {
 			}
 		})
 
+	ncList := c16NonCanonical()
+	c.Space("go-forms", fmt.Sprintf("%d records in forms only the Go structs can hold (parameter / option lists in every order, 16-octet IPv4 forms, unmasked prefixes, mixed case, names the packer completes): whatever PackRR emits for them is accepted by UnpackRR and re-packs to the same octets (the library does not emit what it rejects), SVCB / HTTPS parameters leave in strictly increasing key order (RFC 9460 §2.2) and every ordering of the same parameters packs to the same octets; non-trivial: PackRR succeeds", len(ncList)), true,
+		func(emit func(func(*fw.R))) {
+			first := map[string][]byte{}
+			for _, nc := range ncList {
+				nc := nc
+				tn := strings.Fields(nc.what)[0]
+				var ref []byte
+				if strings.HasPrefix(nc.what, "SVCB params") || strings.HasPrefix(nc.what, "HTTPS params") {
+					if first[tn] == nil {
+						b := make([]byte, 2048)
+						if n, err := dns.PackRR(c16FirstOfType(ncList, tn), b, 0, nil, false); err == nil {
+							first[tn] = b[:n]
+						}
+					}
+					ref = first[tn]
+				}
+				emit(func(r *fw.R) {
+					rr := nc.mk()
+					buf := make([]byte, 4096)
+					n, err := dns.PackRR(rr, buf, 0, nil, false)
+					if err != nil {
+						r.Count("PackRR refuses the form", 1)
+						return
+					}
+					r.Nontrivial()
+					w := buf[:n]
+					rr2, off, uerr := dns.UnpackRR(w, 0)
+					if uerr != nil || off != n {
+						r.Fail("go-forms/emits-what-it-rejects/"+tn, "PackRR of {%s} gives %x, which UnpackRR refuses: %v (off %d of %d)", nc.what, w, uerr, off, n)
+						return
+					}
+					b2 := make([]byte, 4096)
+					if n2, err := dns.PackRR(rr2, b2, 0, nil, false); err != nil || !bytes.Equal(b2[:n2], w) {
+						r.Fail("go-forms/repack/"+tn, "Pack(Unpack(Pack({%s}))) = %x, %v; first packing %x", nc.what, b2[:max(n2, 0)], err, w)
+					}
+					if ref != nil && !bytes.Equal(ref, w) {
+						r.Fail("go-forms/order-dependent/"+tn, "{%s} packs to %x, the same parameters in another order to %x", nc.what, w, ref)
+					}
+					if tn == "SVCB" || tn == "HTTPS" {
+						// owner (wire) + 10 header octets, then priority, target, parameters
+						p := 0
+						for w[p] != 0 {
+							p += int(w[p]) + 1
+						}
+						p += 1 + 10 + 2
+						for w[p] != 0 {
+							p += int(w[p]) + 1
+						}
+						p++
+						last := -1
+						for p+4 <= n {
+							k := int(w[p])<<8 | int(w[p+1])
+							l := int(w[p+2])<<8 | int(w[p+3])
+							if k <= last {
+								r.Fail("go-forms/svcb-key-order/"+tn, "{%s} packs to %x: SvcParamKey %d follows %d", nc.what, w, k, last)
+								break
+							}
+							last = k
+							p += 4 + l
+						}
+					}
+				})
+			}
+		})
+
 	c.Space("private", "a private type registered through PrivateHandle (rdata = 1 length-prefixed string): pack==layout, unpack==original for 6 payloads; non-trivial: all", true,
 		func(emit func(func(*fw.R))) {
 			for i, pl := range [][]byte{{}, {'a'}, {0}, {0xff, '"'}, bytes.Repeat([]byte{'z'}, 255), []byte("hello world")} {
@@ -674,4 +740,13 @@ func c01Private(r *fw.R, i int, payload []byte) {
 	if err != nil || !bytes.Equal(packBuf[:n], want) {
 		r.Fail("private/repack", "repack = %x, %v; want %x", packBuf[:max(n, 0)], err, want)
 	}
+}
+
+func c16FirstOfType(list []c16NC, tn string) dns.RR {
+	for _, nc := range list {
+		if strings.Fields(nc.what)[0] == tn {
+			return nc.mk()
+		}
+	}
+	return nil
 }
